@@ -54,7 +54,7 @@ def gen_output(rng, depth, cap=None):
     if rng.random() < 0.2 and lines:
         # valid multi-byte UTF-8 in the output (degree sign, accents, dashes): results are text, not only ASCII
         k = rng.randrange(len(lines))
-        lines[k] = lines[k][: len(lines[k]) // 2] + rng.choice(["é", "°", "–", "µs", "Ünïcödé", "温度", "→"]) + lines[k][len(lines[k]) // 2:]
+        lines[k] = lines[k][: len(lines[k]) // 2] + rng.choice(["é", "°", "–", "µs", "Ünïcödé", "温度", "→", "✛Eth1", "❝Mgmt", "ě7", "魛["])   # the last four contain the bytes 0x9B / 0x9D (fix 3f4e39f) + lines[k][len(lines[k]) // 2:]
     return "\n".join(lines)
 
 
@@ -296,6 +296,23 @@ def validate_regex_hypotheses(ck, tier):
                     bad += 1
                     ck.disagree("hypothesis hfirst (group(0) = first matching line up to blanks) vs CPython re", {"driver": name, "buffer": w.decode("latin1")},
                                 f"group0={c.search(w).group(0)!r} first_line={first_line!r}")
+        # hypothesis hsub of expected_is_normalized_strip: on a buffer whose other lines are not prompt-like, re.sub(pattern, b"")
+        # empties exactly the prompt line
+        quiet = [f for f in frag if c.search(f) is None and b"\n" not in f and b"{master" not in f]     # (the Junos banner line is part of a two-line prompt)
+        prompts = [f for f in frag if f.strip() and c.search(f) is not None and b"\n" not in f and b"{master" not in f]
+        for _ in range(40 if tier == "quick" else 400):
+            if not prompts:
+                break
+            lines = [rng.choice(quiet).rstrip() for _ in range(rng.randint(0, 5))]
+            pr = rng.choice(prompts).rstrip()
+            if any(c.search(ln) for ln in lines):
+                continue
+            joined = b"\n".join(lines + [pr])
+            ck.extra["regex_hypothesis_checks"] = ck.extra.get("regex_hypothesis_checks", 0) + 1
+            if c.sub(b"", joined) != b"\n".join(lines + [b""]):
+                bad += 1
+                ck.disagree("hypothesis hsub (re.sub empties exactly the prompt line) vs CPython re", {"driver": name, "buffer": joined.decode("latin1")},
+                            f"sub={c.sub(b'', joined)!r}")
         for blank in (b"", b" ", b"\t ", b"  \t", b"\x0b", b" \x0c "):
             if c.search(blank):
                 ck.disagree("hypothesis Fits.blank (invisible text never matches) vs CPython re", {"driver": name, "buffer": repr(blank)}, "")
